@@ -58,7 +58,8 @@ namespace nmtools::array
                 nmtools::at(data,i) = nmtools::at(array_view,i);
         }
 
-        dynamic_ndarray() {}
+        // a 0-dim array holds one element (product of the empty shape); also initialises numel_
+        dynamic_ndarray() { resize(shape_type{}); }
 
         // explicit dynamic_ndarray(const shape_type& shape) { resize(shape); }
 
